@@ -190,7 +190,7 @@ Print Assumptions C24_mstep_maximises_Q.
    WHAT THIS IS NOT: a theorem about [step true p exs th] of ModelLFIUpdate.  The statement
        C24_em_monotone_model (NOT PROVED):  wf_prog p, wf_params p, wf_theta p th, forallb ad_ok p, multiplicities >= 1,
          0 < pevidence th p e for every example, clamp and floor inactive,
-         every AD with tunable heads has  psum th (tun_of c) == 1 - fixed_sum c     (*)
+         every AD with tunable heads has  psum th (tun_of c) == 1 - fixed_sum c     (#)
          ->  sum_e m_e * ln (pevidence (step true p exs th) p e)  >=  sum_e m_e * ln (pevidence th p e)
    needs three links that are not formalised:
      L1 latent space: fmulti is NOT the weight of a row of [wtable] (there every clause always selects an outcome);
@@ -202,11 +202,12 @@ Print Assumptions C24_mstep_maximises_Q.
      L3 M-step: fact_body/fact_par followed by [normalize] is em_update_blocks: for a tunable fact
         c_true/(c_true + c_false); for an AD the factor "number of heads" in par_marg cancels in normalize1, and
         LFI normalises over the tunable heads only, which is the EM update only if the "no head" outcome has
-        expected count 0 (C24_update_without_none) -- this is what (*) is for.
-   Without (*) the model-level statement is FALSE (Findings.v: C24_ad_none_outcome_likelihood_collapse_refuted:
+        expected count 0 (C24_update_without_none) -- this is what (#) is for.
+   Without (#) the model-level statement is FALSE (Findings.v: C24_ad_none_outcome_likelihood_collapse_refuted:
    t(0.3)::b; t(0.3)::c. with the interpretations {b} and {not b, not c}: one step gives b = 1, c = 0 and the second
    interpretation drops from probability 0.4 to 0; the real LFIProblem prints "Ignoring example 2/2" and reports
-   a larger log-likelihood over the remaining example). *)
+   a larger log-likelihood over the remaining example; and C24_normalize_first_step_ll_decrease_refuted: an example
+   that is NOT dropped goes from probability 0.39 to 0.1, the real code reports -0.94 and then -2.30). *)
 Theorem C24_em_monotone : forall (E Z : Type) (exs : list E) (m : E -> R) (zs : E -> list Z)
   (a : E -> Z -> R) (bs : list nat) (ks : nat -> list nat) (avail : nat -> R) (kap : nat -> E -> Z -> option nat),
   (forall b, In b bs -> NoDup (ks b)) ->
